@@ -12,21 +12,48 @@
 (*   nodes 1,2 nodes of the topology, 3 in the complete nodeset only,      *)
 (*         7 outside, 8 the infinite tail.                                 *)
 (***************************************************************************)
-EXTENDS Bind, TLC, Json
+EXTENDS Bind, TLC, Json, MC_Bind_cfg
 
-CONSTANTS TS, CS, CC, CA, NS, NC, NA, NodesC, Hooks, KAllowed, KMems, ThreadsC,
-          Ops, CpuFam, NodeFam, CpuFlagsC, MemFlagsC, Pols, Lens, LoadComps,
-          OnlyInit
+\* MC_Bind_cfg!Cfgs: configuration name -> record of everything that is fixed during one exploration:
+\*   the topology kind (TS .. KMems, ThreadsC) and the alphabet of calls (Ops .. LoadComps, OnlyInit).
+\* The configuration is chosen in Init ("three topology kinds x IS_THISSYSTEM on/off x stage").
+\* tools/props/c10.py generates MC_Bind_cfg.tla from the topologies the real library builds; the copy
+\* in spec/ is a small stand-alone example.  (A definition in an extended module, rather than a
+\* CONSTANT overridden in the cfg file, because TLC evaluates the former once and the latter on every use.)
 
-VARIABLES st,        \* [aff, mp, mb, ab] as in Bind
+VARIABLES cfg,       \* the configuration (never changes)
+          st,        \* [aff, mp, mb, ab] as in Bind
           kb,        \* abstract kernel: policy of the test buffer
           last       \* [c, r] of the last transition (not part of the state: VIEW hides it)
+
+TS        == Cfgs[cfg].TS
+CS        == Cfgs[cfg].CS
+CC        == Cfgs[cfg].CC
+CA        == Cfgs[cfg].CA
+NS        == Cfgs[cfg].NS
+NC        == Cfgs[cfg].NC
+NA        == Cfgs[cfg].NA
+NodesC    == Cfgs[cfg].NodesC
+Hooks     == Cfgs[cfg].Hooks
+KAllowed  == Cfgs[cfg].KAllowed
+KMems     == Cfgs[cfg].KMems
+ThreadsC  == Cfgs[cfg].ThreadsC
+Ops       == Cfgs[cfg].Ops
+CpuFam    == Cfgs[cfg].CpuFam
+NodeFam   == Cfgs[cfg].NodeFam
+CpuFlagsC == Cfgs[cfg].CpuFlagsC
+MemFlagsC == Cfgs[cfg].MemFlagsC
+Pols      == Cfgs[cfg].Pols
+Lens      == Cfgs[cfg].Lens
+LoadComps == Cfgs[cfg].LoadComps
+OnlyInit  == Cfgs[cfg].OnlyInit
 
 TP == [ts |-> TS, cs |-> CS, cc |-> CC, ca |-> CA, ns |-> NS, nc |-> NC, na |-> NA,
        nodes |-> NodesC, hooks |-> Hooks, kallowed |-> KAllowed, kmems |-> KMems]
 
 MpDefault == [mode |-> 0, nodes |-> {}]
-Init == /\ st = [aff |-> [t \in ThreadsC |-> KAllowed], mp |-> MpDefault, mb |-> Firsttouch, ab |-> Firsttouch]
+Init == /\ cfg \in DOMAIN Cfgs
+        /\ st = [aff |-> [t \in ThreadsC |-> KAllowed], mp |-> MpDefault, mb |-> Firsttouch, ab |-> Firsttouch]
         /\ kb = MpDefault
         /\ last = [c |-> [op |-> "none"], r |-> [ret |-> 0]]
 
@@ -290,20 +317,23 @@ Load   == "load" \in Ops /\ \E comp \in LoadComps : Step(Call("load", 0, {}, 0, 
 
 Next == /\ OnlyInit => (st = InitSt /\ kb = MpDefault)
         /\ (SetCpu \/ GetCpu \/ SetMem \/ GetMem \/ Load)
+        /\ UNCHANGED cfg
 
-Spec == Init /\ [][Next]_<<st, kb, last>>
-View == <<st, kb>>
+Spec == Init /\ [][Next]_<<cfg, st, kb, last>>
+View == <<cfg, st, kb>>
 
 (* ------------------------------------------------------------------ *)
 (* the property on the model                                           *)
 (* ------------------------------------------------------------------ *)
 \* every transition of the constructive model satisfies the oracle relation
-StepOK == Assert(Rel(TP, st, last'.c, last'.r, TRUE), <<"model step violates Bind!Rel", st, last'>>)
+StepOK == Assert(Rel(TP, st, last'.c, last'.r, TRUE), <<"model step violates Bind!Rel", cfg, st, last'>>)
 \* whatever reaches the OS is a non-empty subset of the complete set
 SysLegal(sys) == \A i \in 1..Len(sys) :
                    IF sys[i].k = "setaff" THEN sys[i].mask # {} /\ sys[i].mask \subseteq CC
                    ELSE sys[i].mask \subseteq NC
-StepLegal == Assert(SysLegal(last'.r.sys), <<"an illegal set reaches the OS", last'>>)
+\* (load discovers a fresh native topology: its masks are only required to be non-empty)
+StepLegal == Assert(IF last'.c.op = "load" THEN \A i \in 1..Len(last'.r.sys) : last'.r.sys[i].mask # {} ELSE SysLegal(last'.r.sys),
+                    <<"an illegal set reaches the OS", last'>>)
 \* a call that fails without having reached the OS changes nothing
 StepClean == Assert((last'.r.ret = -1 /\ last'.r.sys = <<>>) => (st' = st /\ kb' = kb), <<"a refused call changed the state", last'>>)
 \* foreign topologies have no system effect at all (state invariant)
@@ -312,7 +342,8 @@ AffLegal == \A t \in ThreadsC : st.aff[t] # {} /\ st.aff[t] \subseteq KAllowed
 TypeOK == /\ DOMAIN st.aff = ThreadsC
           /\ st.mb.known \in BOOLEAN /\ st.ab.known \in BOOLEAN
 
-EmitInit == (last.c.op = "none") => PrintT(<<"INIT", ToJson(Sid(st, kb))>>)
-EmitEdge == StepOK /\ StepLegal /\ StepClean
-            /\ PrintT(<<"EDGE", ToJson([s |-> Sid(st, kb), d |-> Sid(st', kb'), c |-> CallT(last'.c)])>>)
+EmitInit == (last.c.op = "none") => PrintT(<<"INIT", ToJson([g |-> cfg, s |-> Sid(st, kb)])>>)
+StepChecks == StepOK /\ StepLegal /\ StepClean
+EmitEdge == StepChecks
+            /\ PrintT(<<"EDGE", ToJson([g |-> cfg, s |-> Sid(st, kb), d |-> Sid(st', kb'), c |-> CallT(last'.c)])>>)
 =============================================================================
